@@ -355,12 +355,10 @@ func (propC01) Run(scI interface{}) *Outcome {
 					fmt.Sprintf("op #%d %s engine %d template %q\n history engine: %s\n fresh engine:   %s", oi, op.K, op.E, prMain, got, want))
 			}
 			// O3: a sample is also rendered by a real fresh process built from the uninstrumented tree
-			if os.Getenv("VERIF_ONESHOT") != "" && w.Choose(48, "o3.sample") == 0 {
-				all := ""
-				for _, src := range ce.cur {
-					all += src
-				}
-				if !reUsesMaps.MatchString(all) {
+			if os.Getenv("VERIF_ONESHOT") != "" && w.Choose(24, "o3.sample") == 0 {
+				// (the fresh process runs the uninstrumented tree with Go's own map order; since C03's fixes the
+				// engine's output no longer depends on it, so programs that consume maps are compared as well)
+				if true {
 					fresh, ok := runOneshot(&oneshotCase{Templates: ce.cur, Debug: ce.debug, Main: prMain, Ctx: pr.Ctx.Variant(op.CV)})
 					if !ok {
 						o.Probes["o3_could_not_run"]++
